@@ -558,7 +558,7 @@ PROPS.update({
                 components=["weights", "admission", "api", "queue_worker", "store", "ticker"],
                 assumptions=["schedule class proved: all phase-contiguous schedules (one call / command / sweep / batch at a time; calls may be unawaited, callers may be parked); finer interleavings of the worker's check-then-add with sweeper subtractions: ledger model (Ledger.v) once built",
                              "overflow-checking (debug) profile"]),
-    "C03": dict(module="C03", run=mk("C03", ["roomy", "awaited", "ttl", "ttlchain", "general"], 250, 4000), components=["store", "weights", "admission", "ticker", "api", "queue_worker", "time"],
+    "C03": dict(module="C03", modules=["C03", "C03_micro"], run=mk("C03", ["roomy", "awaited", "ttl", "ttlchain", "general"], 250, 4000), components=["store", "weights", "admission", "ticker", "api", "queue_worker", "time"],
                 assumptions=["partial: phase-contiguous schedules; 'no memory pressure' is stated per executed put (it fits the free space)"]),
     "C04": dict(module="C04", modules=["C04", "C04_micro"], run=mk("C04", ["general", "ttl", "awaited", "queue1", "expired"], 270, 4000, extra=micro_extra("C04")), components=["store", "api", "queue_worker", "weights", "ticker"]),
     "C05": dict(module="C05", modules=["C05", "C05_micro", "C05_ledger"], run=mk("C05", ["general", "queue1", "ttl", "evict", "evict2"], 250, 4000, extra=micro_extra("C05", stress_quiescent_extra("C05", stress2_extra("C05")))), components=["weights", "store", "api", "queue_worker", "ticker", "admission"]),
@@ -566,7 +566,7 @@ PROPS.update({
     "C07": dict(module="C07", modules=["C07", "C07_micro"], run=mk("C07", ["general", "ttl", "awaited", "expired"], 260, 4000, extra=micro_extra("C07", stress2_extra("C07", "nottl"), profiles=("general", "ttl", "awaited", "queue1"))), components=["store", "api", "time", "queue_worker"]),
     "C08": dict(module="C08", modules=["C08", "C08_window", "C08_micro"], run=mk("C08", ["general", "ttl", "roomy", "ttlchain", "upsertpipe", "expired"], 270, 4000, extra=window_extra("C08", monitor=True)), components=["store", "api", "ticker", "weights", "time", "queue_worker"]),
     "C09": dict(module="C09", run=mk("C09", ["ttl", "general", "ttlchain", "expired"], 260, 4000, extra=kernel_extra("C09", ["type_of_expiry_update", "shard_index"])), components=["store", "time", "api", "ticker"]),
-    "C10": dict(module="C10", modules=["C10", "C10_window"], run=mk("C10", ["ttl", "general", "ttlchain"], 250, 4000, extra=kernel_extra("C10", ["shard_index"], window_extra("C10", monitor=True))), components=["ticker", "weights", "store", "api", "time"]),
+    "C10": dict(module="C10", modules=["C10", "C10_window", "C10_micro"], run=mk("C10", ["ttl", "general", "ttlchain"], 250, 4000, extra=kernel_extra("C10", ["shard_index"], window_extra("C10", monitor=True))), components=["ticker", "weights", "store", "api", "time"]),
 })
 
 
